@@ -107,6 +107,15 @@ def run(res, tier, seed):
     for nm in ("__return__", "__RETURN__", "_return_", "return", "__entry__", "__exit__", "program_entry", "func_entry"):
         lm = {"helper___": nm}
         cases.append((RETN, {}, lm, rename.apply(RETN, {}, lm)))
+    # conventional names in every role a label can play (seed C14-t exempted a function called `main` from
+    # 'First instruction is function'): the program's first label is called, jumped to, loaded; each of the
+    # names programs usually give to such a label, renamed to one nobody would special-case and back
+    for nm in ("main", "_start", "start", "boot", "entry", "exit", "loop", "end", "done", "init", "reset", "handler"):
+        S = (f"{nm}:\n    addi sp, sp, -4\n    sw   ra, 0(sp)\n    li   a7, 5\n    ecall\n    beqz a0, quit_\n    la   t0, {nm}\n"
+             f"    jal  {nm}\nquit_:\n    lw   ra, 0(sp)\n    addi sp, sp, 4\n    ret\nhelp_:\n    addi a0, a0, 1\n    j    {nm}\n")
+        for other in ("qq" + "x" * (len(nm) - 2), "main" if nm != "main" else "mein"):
+            lm = {nm: other}
+            cases.append((S, {}, lm, rename.apply(S, {}, lm)))
     reqs = []
     for s, pm, lm, s2 in cases:
         reqs.append(pipe_req("lints,run", [("m.s", s)]))
